@@ -5,7 +5,7 @@ from hypothesis import strategies as st
 
 from conda_content_trust import authentication as A
 
-from vlib import cfgunit, configrun, gen_envelope as GE, gen_json as G, gen_metadata as GM, keys, ref_openpgp, ref_schema, ref_verify as RV, \
+from vlib import cfgunit, configrun, hostile, gen_envelope as GE, gen_json as G, gen_metadata as GM, keys, ref_openpgp, ref_schema, ref_verify as RV, \
     related
 from vlib.ref_canon import canon
 from vlib.runner import Unit, Violation
@@ -288,6 +288,9 @@ def check_pair(case):
                         + " verify_root")
     probes = history_probes(t0, n0)
     probes += cross_mode_probe(t0, n0, case.get("seeds", []))
+    if expect.kind == "reject":
+        probes += hostile.never_accepts(lambda: (lambda t=copy.deepcopy(t0), n=copy.deepcopy(n0): A.verify_root(t, n)),
+                                        "verify_root", expect.why)
     c = conjuncts(t0, n0)
     false_ones = [k for k, v in c.items() if v is False or v == "no"]
     rotated = (c.get("rootdeleg") and T["signed"]["delegations"]["root"]["pubkeys"]
